@@ -33,6 +33,8 @@ mod c10_filters;
 mod c16_cached;
 #[cfg(kani)]
 mod c02_c08_tree;
+#[cfg(all(kani, feature = "fs_core"))]
+mod c03_public_auth;
 #[cfg(kani)]
 mod c19_retention;
 #[cfg(kani)]
